@@ -878,23 +878,13 @@ func (s *crSess) crashes(kv map[string]string, emit func(string, string), fail f
 		}
 		return true
 	}
-	// per step: number of writer / flusher events seen so far
-	wc, fc, curStep := 0, 0, -1
+	pos := s.positions()
 	for i, e := range s.events {
-		if e.step != curStep {
-			curStep, wc, fc = e.step, 0, 0
-		}
 		if e.tok == "" {
 			continue
 		}
-		if k := s.stepKind[e.step]; k == "close" || k == "compact" {
-			e.actor = 'W' // strictly sequential steps
-		}
-		if e.actor == 'F' {
-			fc++
-		} else {
-			wc++
-		}
+		e.actor = pos[i].actor
+		wc, fc := pos[i].w, pos[i].f
 		g := e.Seq
 		acked, issued := s.ackedIssued(g)
 		// sub-event images: open(O_CREAT) done, ftruncate(size) not yet; ftruncate(0) done,
@@ -925,6 +915,32 @@ func (s *crSess) crashes(kv map[string]string, emit func(string, string), fail f
 			continue
 		}
 		img := s.snaps[i]
+		if j := pos[i].racing; j >= 0 {
+			// the other thread was inside z.OpenMmapFile / MmapFile.Delete when the snapshot was
+			// taken: a real instance of the sub-event image of its next event
+			o := s.events[j]
+			sub := "create"
+			if o.Kind == badger.VevDelete {
+				sub = "delete"
+			}
+			w2, f2 := wc, fc
+			if pos[j].actor == 'F' {
+				f2++
+			} else {
+				w2++
+			}
+			v := s.judgeImage(img, acked, issued, s.exactAt(g), "C08")
+			emit(fmt.Sprintf("crash step=%d w=%d f=%d sub=%s:%s actor=%c", e.step, w2, f2, sub, strings.SplitN(o.tok, ":", 2)[1], pos[j].actor), v.out)
+			s.st.Inc("crash:racing-sub-" + sub)
+			for _, f := range v.fails {
+				if strings.Contains(f, "-open]") && v.out == "err:zero-length-log" {
+					f = "[F17:zero-length-log-file] " + f
+				}
+				fail(f)
+			}
+			last = nil
+			continue
+		}
 		if sameImg(img, last) {
 			// e.g. a sync: nothing changed for the kill model
 			s.st.Inc("crash:same-image")
@@ -1027,10 +1043,10 @@ func genCrashSession(rng *rand.Rand, st *Stats) []string {
 			ops = append(ops, "commit "+strings.Join(parts, ","))
 		case r < 73 && memsz <= 8192 && thr == 200:
 			// burst of fat single-entry commits: the memtable fills up and rotates inside a commit
-			nb := memsz/300 + rng.Intn(8)
+			nb := memsz/150 + rng.Intn(8)
 			for j := 0; j < nb; j++ {
 				k := keys[rng.Intn(len(keys))]
-				n := 200 + rng.Intn(60)
+				n := thr - 1 - rng.Intn(20) // as fat as an inline value can be
 				if n+40 > maxTxnBytes/2 {
 					n = maxTxnBytes/2 - 41
 				}
@@ -1208,7 +1224,7 @@ func (s *crSess) powerLoss(kv map[string]string, emit func(string, string), fail
 	pw := crPower{vol: map[string]int{}, dur: map[string]int{}, sync: map[int]crFile{}}
 	never := map[int]bool{}     // identities never synced
 	deadVol := map[int]crFile{} // unlinked identities: their page-cache content
-	wcP, fcP, curStepP := 0, 0, -1
+	posP := s.positions()
 	empty := crFile{size: 0, blob: s.putBlob(nil)}
 	judged := map[string]bool{}
 	var renameFrom string
@@ -1258,21 +1274,13 @@ func (s *crSess) powerLoss(kv map[string]string, emit func(string, string), fail
 				pw.dur[k] = v
 			}
 		}
-		if e.step != curStepP {
-			curStepP, wcP, fcP = e.step, 0, 0
-		}
 		if e.tok == "" {
 			continue
 		}
-		act := e.actor
-		if k := s.stepKind[e.step]; k == "close" || k == "compact" {
-			act = 'W'
+		if posP[i].racing >= 0 {
+			continue
 		}
-		if act == 'F' {
-			fcP++
-		} else {
-			wcP++
-		}
+		wcP, fcP := posP[i].w, posP[i].f
 		// power-loss points: the end of every logical step (acknowledgement points) and every
 		// event that changes what is durable or which names exist
 		lastOfStep := i+1 == len(s.events) || s.events[i+1].step != e.step
@@ -1466,4 +1474,75 @@ func (s *crSess) powerLoss(kv map[string]string, emit func(string, string), fail
 func crTokOfName(n string) string {
 	t, _ := crFileTok(n)
 	return t
+}
+
+// positions: for every event, how many writer / flusher events of its step are reflected in
+// the snapshot taken at it. The snapshot is taken by the thread that logged the event while
+// the other thread keeps running; its next operation may already have landed in the page
+// cache although its event is logged only after the snapshot (it blocks on the event mutex,
+// so it is never more than one operation ahead). Whether it has landed is decided from the
+// snapshots alone: the file it touches looks the same as in the snapshot taken at its event.
+type crPos struct {
+	w, f   int
+	actor  byte
+	racing int // >= 0: index of the other thread's create/delete event that is half done
+}
+
+func (s *crSess) positions() []crPos {
+	out := make([]crPos, len(s.events))
+	eff := func(e crEv) byte {
+		if k := s.stepKind[e.step]; k == "close" || k == "compact" {
+			return 'W'
+		}
+		return e.actor
+	}
+	wc, fc, cur := 0, 0, -1
+	for i, e := range s.events {
+		if e.step != cur {
+			cur, wc, fc = e.step, 0, 0
+		}
+		out[i].racing = -1
+		if e.tok == "" {
+			out[i] = crPos{wc, fc, eff(e), -1}
+			continue
+		}
+		a := eff(e)
+		if a == 'F' {
+			fc++
+		} else {
+			wc++
+		}
+		out[i] = crPos{wc, fc, a, -1}
+		// the other thread's next event in this step
+		for j := i + 1; j < len(s.events) && s.events[j].step == e.step; j++ {
+			o := s.events[j]
+			if o.tok == "" || eff(o) == a {
+				continue
+			}
+			if o.file == "" {
+				break
+			}
+			switch o.Kind {
+			case badger.VevCreate, badger.VevWrite, badger.VevDelete, badger.VevTruncate, badger.VevRemove, badger.VevRename, badger.VevClose:
+			default:
+				j = len(s.events)
+				continue
+			}
+			fi, oki := s.snaps[i][o.file]
+			fj, okj := s.snaps[j][o.file]
+			numbered := strings.HasSuffix(o.file, ".mem") || strings.HasSuffix(o.file, ".vlog") || strings.HasSuffix(o.file, ".sst")
+			switch {
+			case oki == okj && fi == fj:
+				if eff(o) == 'F' {
+					out[i].f++
+				} else {
+					out[i].w++
+				}
+			case oki && fi.size == 0 && numbered && (o.Kind == badger.VevCreate || o.Kind == badger.VevDelete):
+				out[i].racing = j
+			}
+			break
+		}
+	}
+	return out
 }
